@@ -34,11 +34,32 @@ pub type Wrap { W(Option<Int>) V(Shape, Colour) Z }
 pub type Tree { Leaf Node(Tree, Int, Tree) }
 pub type Big { B0 B1(Int) B2 B3(ByteArray, Int) B4 B5 B6 B7(Int) B8 }
 pub type Nest { inner: Acc, shapes: List<Shape>, pick: Option<Colour> }
+pub type Tagged {
+  @tag(5)
+  Close
+  Update(Int)
+  @tag(200)
+  Far(ByteArray)
+}
+pub type Bx<a> { Bx(a) Hollow }
+pub type Duo<a, b> { left: a, right: b }
+@tag(9)
+pub type Finally { yes: Int }
+@list
+pub type Dino { food: Int, weight: Int, name: ByteArray }
+pub type Wow {
+  @tag(2)
+  Het { first: Dino, second: (Int, ByteArray) }
+  Toro(Int)
+}
 """
 
 TYPES = ["Int", "ByteArray", "Bool", "Data", "Colour", "Shape", "Acc", "Wrap", "Tree", "Big", "Nest", "Option<Int>", "Option<Shape>", "List<Int>",
          "List<Colour>", "(Int, ByteArray)", "(Bool, Int, Colour)", "List<(Int, Colour)>", "Option<(Int, Int)>", "Pairs<Int, ByteArray>",
-         "Pair<Int, Bool>", "List<List<Int>>", "Option<Option<Int>>", "Pairs<ByteArray, Shape>"]
+         "Pair<Int, Bool>", "List<List<Int>>", "Option<Option<Int>>", "Pairs<ByteArray, Shape>", "Tagged", "Finally", "Dino", "Wow", "Option<Tagged>",
+         # generic instantiations that differ only inside a tuple / pair / nested argument (the compiler caches generated decoders per type)
+         "Bx<(Int, Int)>", "Bx<(Int, ByteArray)>", "Bx<Int>", "Bx<ByteArray>", "Bx<List<Int>>", "Bx<List<ByteArray>>", "Bx<Pair<Int, Int>>", "Bx<Pair<Int, ByteArray>>",
+         "Duo<Int, ByteArray>", "Duo<ByteArray, Int>", "Duo<Bx<Int>, Bx<Bool>>", "Duo<Bx<Bool>, Bx<Int>>", "Option<(Int, ByteArray)>", "List<(ByteArray, Colour)>"]
 
 
 def module_source():
